@@ -11,6 +11,21 @@ from ..consteval import Folder
 from ..report import AnalysisError, Report, VERIF
 from ..srcmodel import Source, is_self_attr, unparse
 
+EXPLANATION_SEM = (
+    "  Interpreted part (sa/rules/c08sem.py, a bounded catalogue): Input's own __enter__/send/_send/_wait_for_read_ready_or_timeout/"
+    "_nonblocking_read/unget_bytes/trigger factories and their callbacks are interpreted against the reference OS model "
+    "(select readiness from pending data, pipes, clock advanced by timeouts, SIGINT handler + wake-up byte) over 26 scripted "
+    "histories: keys one by one and several per read, escape sequences, unget before / between / after arrivals, events "
+    "from several triggers, thread-safe triggers firing before and WHILE a request is blocked (also a trigger created after "
+    "a request has already waited), scheduled events with equal and different times, not yet due and due while keys wait, "
+    "SIGINT between requests, timeouts 0 / small / None, bursts above and below the paste threshold (default, None, 1, "
+    "100), a multi-kilobyte burst of multi-byte characters and escape sequences.  H1 the keypresses returned (pastes "
+    "flattened) are exactly the keypresses the bytes decode to, in order; H2 every event comes back exactly once, per "
+    "trigger in trigger order, one SigIntEvent per SIGINT; H3 scheduled events never early and in time order; H4 no request "
+    "returns None or blocks forever while something is deliverable; H5 None not before the timeout; H6 a burst above the "
+    "threshold comes back as one paste event."
+)
+
 EXPLANATION = (
     "Q1 who-may-mutate table for the six Input queues over the whole package (tail-in append/extend, head-out pop(0)/"
     "popleft, assignment only in __init__; sigints may pop() because its elements are indistinguishable); Q2 every popped "
@@ -860,12 +875,17 @@ def run_rules(src, rep):
 
 
 def check(src, rep):
-    rep.explanation = EXPLANATION
+    rep.explanation = EXPLANATION + EXPLANATION_SEM
     rep.not_decided = NOT_DECIDED
     rep.assumptions = ["list.sort is stable; select/os.read/os.write behave as documented",
                        "the scheduled queue is not modified between the sort and the pops of one request (documented in _send)"]
     counts = run_rules(src, rep)
+    from . import c08sem
+    sem = {}
+    rep.guard(c08sem.run, src, rep, sem)
+    counts.update(sem)
     rep.extracted["counts"] = counts
+    rep.floor("interpreted request histories", counts.get("histories", 0), 20)
     rep.floor("queue mutation sites", counts.get("queue_mutation_sites", 0), 16)
     rep.floor("scheduled-queue pops", counts.get("scheduled_pops", 0), 2)
     rep.floor("wait call sites in _send", counts.get("wait_sites", 0), 1)
